@@ -1399,4 +1399,480 @@ theorem C08_dictation_en_occ (ds : List Nat) (h : ∀ d ∈ ds, d < 10) :
 example : occTexts En.lang zeroThr ([0, 0, 7, 0, 1, 2, 0, 0].map Spec.En.digitWord) =
     some [w!"007", w!"01", w!"2", w!"00"] := C08_dictation_en _ (by decide)
 
+/-! ## Part 5 — lifting an interpreter run to the scanner; decimals (C05) -/
+
+theorem vocab_keys_ok : En.vocab.all (fun p => !p.1.isEmpty && p.1.all (fun c => !simpleIsWs c)) = true := by decide
+
+theorem lemmatize_all_ws (w : Word) (h : w.all simpleIsWs = true) : (En.lemmatize w).all simpleIsWs = true := by
+  unfold En.lemmatize
+  split
+  · unfold trimEndBy
+    rw [List.all_eq_true] at h ⊢
+    intro c hc
+    have h1 : c ∈ w.reverse.dropWhile (· == 's') := by simpa using hc
+    have h2 : c ∈ w.reverse := (List.dropWhile_sublist _).subset h1
+    exact h c (by simpa using h2)
+  · exact h
+
+/-- a word that the interpreter accepts (or answers `Incomplete` to) is neither skipped by the scanner
+nor the decimal separator -/
+theorem accepted_word (w : Word) (b : DS)
+    (h : (En.apply w b).1 = none ∨ (En.apply w b).1 = some .incomplete) :
+    skipW w = false ∧ En.lang.isDecSep w = false := by
+  have hnan : ∀ w', w = w' → En.apply w' b = (some .nan, b) → False := by
+    intro w' e hx
+    rw [e, hx] at h
+    rcases h with h | h <;> exact absurd h (by simp)
+  constructor
+  · unfold skipW
+    rw [Bool.or_eq_false_iff]
+    constructor
+    · cases hq : (w == ['-']) with
+      | false => rfl
+      | true => exact (hnan ['-'] (by simpa using hq) rfl).elim
+    · cases hq : w.all simpleCC.isWhitespace with
+      | false => rfl
+      | true =>
+        exfalso
+        have hq' : w.all simpleIsWs = true := hq
+        by_cases hc : w.contains '-' = true
+        · have hm : '-' ∈ w := List.contains_iff_mem.mp hc
+          have := List.all_eq_true.mp hq' '-' hm
+          exact absurd this (by decide)
+        · have hc' : w.contains '-' = false := by simpa using hc
+          have hx : (En.apply w b).1 = (((En.vocab.lookup (En.lemmatize w)).getD (.fail .nan)).exec b).1 := by
+            show (En.applyFuel (1 + 1) w b).1 = _
+            rw [applyFuel_nohyphen 1 w b hc', post_fst]
+          rw [hx] at h
+          cases hlk : En.vocab.lookup (En.lemmatize w) with
+          | none =>
+            rw [hlk] at h
+            rcases h with h | h <;> exact absurd h (by simp [Act.exec])
+          | some a =>
+            have hm := lookup_mem _ a _ hlk
+            have hk := List.all_eq_true.mp vocab_keys_ok _ hm
+            have hl := lemmatize_all_ws w hq'
+            simp only [Bool.and_eq_true, Bool.not_eq_true'] at hk
+            cases hkey : En.lemmatize w with
+            | nil => rw [hkey] at hk; exact absurd hk.1 (by simp)
+            | cons c t =>
+              rw [hkey] at hk hl
+              have h1 : simpleIsWs c = true := (List.all_eq_true.mp hl) c List.mem_cons_self
+              have h2 := (List.all_eq_true.mp hk.2) c List.mem_cons_self
+              rw [h1] at h2
+              exact absurd h2 (by decide)
+  · cases hq : En.lang.isDecSep w with
+    | false => rfl
+    | true =>
+      have : w = w!"point" := by
+        have : (w == w!"point") = true := hq
+        simpa using this
+      exact (hnan _ this rfl).elim
+
+theorem pushWords_append (cfg : ScanCfg) : ∀ (a b : List Word) (s : Scanner) (i : Nat),
+    pushWords cfg s i (a ++ b) =
+      match pushWords cfg s i a with
+      | .error f => .error f
+      | .ok s' => pushWords cfg s' (i + 2 * a.length) b := by
+  intro a
+  induction a with
+  | nil => intro b s i; rfl
+  | cons w a ih =>
+    intro b s i
+    rw [List.cons_append, pushWords, pushWords]
+    cases s.push cfg i (wt w) with
+    | error f => rfl
+    | ok s' =>
+      dsimp only
+      rw [ih b s' (i + 2)]
+      have : i + 2 + 2 * a.length = i + 2 * (w :: a).length := by
+        rw [List.length_cons]; omega
+      rw [this]
+
+/-- integer phase: the parser holds `b`, nothing has been emitted -/
+def SI (s : Scanner) (b : DS) : Prop :=
+  s.parser = { int := b } ∧ s.tracker.queue = [] ∧ s.tracker.onHold = none
+
+/-- **lifting**: a successful interpreter run is reproduced by the scanner, word by word, as one open match -/
+theorem lift_run (thr : Nat → Bool) : ∀ (ws : List Word) (b : DS) (inc : Bool) (r : DS),
+    execGroupFrom En.apply ws b inc = .ok r → ∀ (s : Scanner) (i : Nat), SI s b →
+    ∃ s', pushWords (scanCfg En.lang thr) s i ws = .ok s' ∧ SI s' r := by
+  intro ws
+  induction ws with
+  | nil =>
+    intro b inc r h s i hs
+    rw [execGroupFrom] at h
+    cases inc with
+    | true => exact absurd h (by simp)
+    | false =>
+      have : b = r := by simpa using h
+      rw [← this]
+      exact ⟨s, rfl, hs⟩
+  | cons w ws ih =>
+    intro b inc r h s i hs
+    rw [execGroupFrom] at h
+    obtain ⟨hp, hq, hh⟩ := hs
+    rcases hx : En.apply w b with ⟨st, b1⟩
+    rw [hx] at h
+    have hx' : En.lang.apply w s.parser.int = (st, b1) := by rw [hp]; exact hx
+    have hpush : st = none ∨ st = some .incomplete → s.parser.push En.lang w = (st, { int := b1 }) := by
+      intro hst
+      have hw := accepted_word w b (by rw [hx]; exact hst)
+      rw [parser_push_nosep En.lang s.parser w (by rw [hp]) hw.2, hx', hp]
+    rw [pushWords]
+    cases st with
+    | none =>
+      have hw := accepted_word w b (by rw [hx]; exact Or.inl rfl)
+      rw [push_word En.lang thr s i w hw.1, hpush (Or.inl rfl)]
+      exact ih b1 false r h _ (i + 2) ⟨rfl, hq, hh⟩
+    | some e =>
+      cases e with
+      | incomplete =>
+        have hw := accepted_word w b (by rw [hx]; exact Or.inr rfl)
+        rw [push_word En.lang thr s i w hw.1, hpush (Or.inr rfl)]
+        exact ih b1 true r h _ (i + 2) ⟨rfl, hq, hh⟩
+      | overlap => exact absurd h (by simp)
+      | nan => exact absurd h (by simp)
+      | frozen => exact absurd h (by simp)
+
+/-! ### the separator and the fraction digits -/
+
+/-- decimal phase: integer part `I`, fraction digits `R` (last first), nothing emitted -/
+def SD (s : Scanner) (I : DS) (R : List Nat) : Prop :=
+  s.parser = { int := I, dec := { rbuf := R }, isDec := true } ∧ s.tracker.queue = [] ∧ s.tracker.onHold = none
+
+theorem parser_push_sep (p : Parser) (hd : p.isDec = false) (hne : p.int.isEmpty = false)
+    (hm : p.int.marker = .none) :
+    p.push En.lang En.sepWord = (some .incomplete, { p with isDec := true }) := by
+  unfold Parser.push
+  rw [hd, if_neg Bool.false_ne_true]
+  have ha : En.lang.apply En.sepWord p.int = (some .nan, p.int) := rfl
+  rw [ha]
+  dsimp only
+  rw [hne, hm]
+  rfl
+
+theorem parser_push_dec (p : Parser) (w : Word) (d : Nat) (hd : p.isDec = true) (hf : p.dec.frozen = false)
+    (hl : En.decVocab.lookup w = some d) :
+    p.push En.lang w = (none, { p with dec := { p.dec with rbuf := d :: p.dec.rbuf } }) := by
+  unfold Parser.push
+  rw [hd, if_pos rfl]
+  have ha : En.lang.applyDecimal w p.dec = (none, { p.dec with rbuf := d :: p.dec.rbuf }) := by
+    show En.applyDecimal w _ = _
+    unfold En.applyDecimal
+    rw [hl]
+    dsimp only
+    unfold DS.push
+    rw [hf, if_neg Bool.false_ne_true]
+    rfl
+  rw [ha]
+  rfl
+
+theorem step_point (thr : Nat → Bool) (s : Scanner) (i : Nat) (I : DS) (hs : SI s I) (hne : I.isEmpty = false)
+    (hm : I.marker = .none) :
+    ∃ s', s.push (scanCfg En.lang thr) i (wt En.sepWord) = .ok s' ∧ SD s' I [] := by
+  obtain ⟨hp, hq, hh⟩ := hs
+  have hpush : s.parser.push En.lang En.sepWord = (some .incomplete, { int := I, dec := {}, isDec := true }) := by
+    rw [parser_push_sep s.parser (by rw [hp]) (by rw [hp]; exact hne) (by rw [hp]; exact hm), hp]
+  rw [push_word En.lang thr s i En.sepWord (by decide), hpush]
+  exact ⟨_, rfl, rfl, hq, hh⟩
+
+/-- the word of the fraction digit `d` at index `i` -/
+def fracWord (v : Var) (p : Nat × Nat) : Word :=
+  if p.2 == 0 then (match pick v (cp 15 (p.1 % 16)) 2 with | 0 => w!"zero" | _ => w!"nought") else En.unitWord p.2
+
+theorem fraction_eq (v : Var) (ds : List Nat) :
+    En.fraction v ds = ((List.range ds.length).zip ds).map (fracWord v) := rfl
+
+theorem fracWord_ok (v : Var) (p : Nat × Nat) (h : p.2 < 10) :
+    skipW (fracWord v p) = false ∧ En.decVocab.lookup (fracWord v p) = some p.2 := by
+  obtain ⟨i, d⟩ := p
+  unfold fracWord
+  dsimp only at h ⊢
+  by_cases hd : d = 0
+  · subst hd
+    have h00 : ((0 : Nat) == 0) = true := rfl
+    rw [if_pos h00]
+    generalize pick v (cp 15 (i % 16)) 2 = k
+    cases k with
+    | zero => exact ⟨by decide, by rfl⟩
+    | succ k =>
+      show skipW w!"nought" = false ∧ List.lookup w!"nought" En.decVocab = some 0
+      exact ⟨by decide, by rfl⟩
+  · rw [if_neg (by simp [hd])]
+    have : d = 1 ∨ d = 2 ∨ d = 3 ∨ d = 4 ∨ d = 5 ∨ d = 6 ∨ d = 7 ∨ d = 8 ∨ d = 9 := by omega
+    rcases this with rfl | rfl | rfl | rfl | rfl | rfl | rfl | rfl | rfl <;> exact ⟨by decide, by rfl⟩
+
+theorem step_frac (thr : Nat → Bool) (s : Scanner) (i : Nat) (I : DS) (R : List Nat) (w : Word) (d : Nat)
+    (hs : SD s I R) (hw : skipW w = false) (hl : En.decVocab.lookup w = some d) :
+    ∃ s', s.push (scanCfg En.lang thr) i (wt w) = .ok s' ∧ SD s' I (d :: R) := by
+  obtain ⟨hp, hq, hh⟩ := hs
+  have hpush : s.parser.push En.lang w = (none, { int := I, dec := { rbuf := d :: R }, isDec := true }) := by
+    rw [parser_push_dec s.parser w d (by rw [hp]) (by rw [hp]) hl, hp]
+  rw [push_word En.lang thr s i w hw, hpush]
+  exact ⟨_, rfl, rfl, hq, hh⟩
+
+theorem frac_run (thr : Nat → Bool) (v : Var) (I : DS) : ∀ (l : List (Nat × Nat)), (∀ p ∈ l, p.2 < 10) →
+    ∀ (s : Scanner) (i : Nat) (R : List Nat), SD s I R →
+    ∃ s', pushWords (scanCfg En.lang thr) s i (l.map (fracWord v)) = .ok s' ∧
+      SD s' I ((l.map Prod.snd).reverse ++ R) := by
+  intro l
+  induction l with
+  | nil => intro _ s i R hs; exact ⟨s, rfl, hs⟩
+  | cons p l ih =>
+    intro hl s i R hs
+    obtain ⟨h1, h2⟩ := fracWord_ok v p (hl p List.mem_cons_self)
+    obtain ⟨s1, e1, hs1⟩ := step_frac thr s i I R _ p.2 hs h1 h2
+    obtain ⟨s', e2, hs2⟩ := ih (fun q hq => hl q (List.mem_cons_of_mem _ hq)) s1 (i + 2) (p.2 :: R) hs1
+    refine ⟨s', ?_, ?_⟩
+    · rw [List.map_cons, pushWords, e1]; exact e2
+    · rw [List.map_cons, List.reverse_cons, List.append_assoc]; exact hs2
+
+/-- end of a decimal number: exactly one occurrence, whatever the threshold -/
+theorem finalize_decimal (thr : Nat → Bool) (s : Scanner) (I : DS) (R : List Nat) (hs : SD s I R)
+    (hne : I.isEmpty = false) (hm : I.marker = .none) (hR : R ≠ []) :
+    ∃ sf a b, s.finalize (scanCfg En.lang thr) = .ok sf ∧
+      sf.tracker.queue = [⟨a, b, renderChars I ++ ['.'] ++ R.reverse.map digitChar, .dec I.render R.reverse, false⟩] := by
+  obtain ⟨hp, hq, hh⟩ := hs
+  unfold Scanner.finalize
+  have hn : s.parser.hasNumber = true := by
+    rw [hp]; show (!I.isEmpty) = true; rw [hne]; rfl
+  rw [hn, if_pos rfl]
+  unfold Scanner.numberEnd
+  have ho : s.parser.isOrdinal = false := by
+    rw [hp]; show I.marker.isOrdinal = false; rw [hm]; rfl
+  have hdr : ({ rbuf := R } : DS).render = R.reverse := rfl
+  obtain ⟨x, xs, hrr⟩ : ∃ x xs, R.reverse = x :: xs := by
+    cases hrv : R.reverse with
+    | nil => exact absurd (by simpa using hrv) hR
+    | cons x xs => exact ⟨x, xs, rfl⟩
+  have hf : s.parser.finish (scanCfg En.lang thr).lang =
+      .ok (renderChars I ++ ['.'] ++ R.reverse.map digitChar, .dec I.render R.reverse) := by
+    rw [hp]
+    unfold Parser.finish
+    have hde : ({ rbuf := R } : DS).isEmpty = false := by
+      show (R.isEmpty && (0 : Nat) == 0) = false
+      cases R with
+      | nil => exact absurd rfl hR
+      | cons a t => rfl
+    dsimp only
+    rw [hde]
+    show ((scanCfg En.lang thr).lang.formatDecimalW I { rbuf := R }) = _
+    unfold Lang.formatDecimalW
+    have hrc2 : renderChars ({ rbuf := R } : DS) = R.reverse.map digitChar := rfl
+    have hc : (I.render.isEmpty && R.reverse.isEmpty) = false := by rw [hrr]; simp
+    rw [hrc2, hdr, hc, if_neg Bool.false_ne_true]
+    rfl
+  rw [hf, ho]
+  dsimp only
+  have hsm : (scanCfg En.lang thr).small (.dec I.render R.reverse) = false := by
+    rw [hrr]; rfl
+  rw [hsm, Bool.and_false]
+  obtain ⟨_, t2⟩ := tracker_numberEnd s.tracker false (renderChars I ++ ['.'] ++ R.reverse.map digitChar)
+    (.dec I.render R.reverse) hh
+  refine ⟨_, s.tracker.mstart, s.tracker.mend, rfl, ?_⟩
+  show (s.tracker.numberEnd false _ _ false).queue = _
+  rw [t2, hq]
+  rfl
+
+/-- **C05 for English**: integer part `n < 10^12`, any non-empty fraction, any threshold: exactly one
+occurrence, whose text is `<digits of n>.<fraction digits>` -/
+theorem C05_decimal_en_occ (v : Spec.Var) (n : Nat) (ds : List Nat) (thr : Nat → Bool) (h : n < 10 ^ 12)
+    (hds : ds ≠ []) (h9 : ∀ d ∈ ds, d < 10) :
+    ∃ a b, findNumbers (scanCfg En.lang thr)
+        (wordTokens (Spec.En.cardinal v n ++ [Spec.En.sepWord] ++ Spec.En.fraction v ds)) =
+      .ok [⟨a, b, decChars n ++ ['.'] ++ ds.map digitChar, .dec (decDigits n) ds, false⟩] := by
+  -- the integer part as an interpreter run
+  obtain ⟨I, hrun, hne, hm, hrc, hrd⟩ : ∃ I, execGroupFrom En.apply (En.cardinal v n) DS.new false = .ok I ∧
+      I.isEmpty = false ∧ I.marker = .none ∧ renderChars I = decChars n ∧ I.render = decDigits n := by
+    by_cases hn : n = 0
+    · subst hn
+      have e0 : decDigits 0 = [0] := by rw [decDigits, if_pos (by decide)]
+      refine ⟨setLz 1 DS.new, rfl, rfl, rfl, ?_, ?_⟩
+      · unfold decChars; rw [e0]; rfl
+      · rw [e0]; rfl
+    · refine ⟨C01En.mk (lsb n), cardinal_run v n hn h, ?_, rfl, ?_, ?_⟩
+      · have := (format_lz 0 n hn).1; exact this
+      · have hr : (C01En.mk (lsb n)).render = decDigits n := by
+          show List.replicate 0 0 ++ (lsb n).reverse = _
+          rw [lsb_rev_dec n hn]; rfl
+        unfold renderChars decChars; rw [hr]
+      · show List.replicate 0 0 ++ (lsb n).reverse = _
+        rw [lsb_rev_dec n hn]; rfl
+  have hs0 : SI {} DS.new := ⟨rfl, rfl, rfl⟩
+  obtain ⟨s1, e1, hs1⟩ := lift_run thr _ _ _ _ hrun {} 0 hs0
+  obtain ⟨s2, e2, hs2⟩ := step_point thr s1 (0 + 2 * (En.cardinal v n).length) I hs1 hne hm
+  have hl : ∀ p ∈ (List.range ds.length).zip ds, p.2 < 10 := by
+    intro p hp
+    exact h9 p.2 (List.of_mem_zip hp).2
+  obtain ⟨s3, e3, hs3⟩ := frac_run thr v I _ hl s2 (0 + 2 * (En.cardinal v n).length + 2) [] hs2
+  have hsnd : ((List.range ds.length).zip ds).map Prod.snd = ds :=
+    List.map_snd_zip (by rw [List.length_range]; exact Nat.le_refl _)
+  rw [hsnd, List.append_nil] at hs3
+  obtain ⟨sf, a, b, e4, hq⟩ := finalize_decimal thr s3 I ds.reverse hs3 hne hm (by simpa using hds)
+  rw [List.reverse_reverse, hrc, hrd] at hq
+  refine ⟨a, b, ?_⟩
+  rw [findNumbers_words, List.append_assoc, pushWords_append, e1]
+  dsimp only
+  rw [List.singleton_append, pushWords, e2]
+  dsimp only
+  rw [fraction_eq, e3]
+  dsimp only
+  rw [e4]
+  dsimp only
+  rw [hq]
+
+theorem C05_decimal_en (v : Spec.Var) (n : Nat) (ds : List Nat) (thr : Nat → Bool) (h : n < 10 ^ 12)
+    (hds : ds ≠ []) (h9 : ∀ d ∈ ds, d < 10) :
+    occTexts En.lang thr (Spec.En.cardinal v n ++ [Spec.En.sepWord] ++ Spec.En.fraction v ds) =
+      some [decChars n ++ [Spec.En.decMark] ++ ds.map digitChar] := by
+  obtain ⟨a, b, e⟩ := C05_decimal_en_occ v n ds thr h hds h9
+  unfold occTexts
+  rw [e]
+  rfl
+
+example : occTexts En.lang (fun _ => true) (Spec.En.cardinal (fun _ => 0) 0 ++ [Spec.En.sepWord] ++
+    Spec.En.fraction (fun _ => 0) [0, 0, 7]) = some [decChars 0 ++ ['.'] ++ w!"007"] :=
+  C05_decimal_en (fun _ => 0) 0 [0, 0, 7] (fun _ => true) (by decide) (by decide) (by decide)
+
+/-! ## Part 6 — from validation to the scanner (threshold 0) -/
+
+theorem small_zeroThr (l : Lang) (val : Value) : (scanCfg l zeroThr).small val = false := by
+  cases val with
+  | dec i d => cases d <;> rfl
+  | recip i => rfl
+
+/-- end of a pending integer-mode number under threshold 0: its text is appended to the queue -/
+theorem finalize_run (s : Scanner) (r : DS) (text : Word) (val : Value) (hs : SI s r) (hne : r.isEmpty = false)
+    (hf : En.lang.formatW r = .ok (text, val)) :
+    ∃ sf, s.finalize (scanCfg En.lang zeroThr) = .ok sf ∧ sf.parser = {} ∧ sf.tracker.onHold = none ∧
+      sf.tracker.queue.map (·.text) = [text] := by
+  obtain ⟨hp, hq, hh⟩ := hs
+  unfold Scanner.finalize
+  have hn : s.parser.hasNumber = true := by
+    rw [hp]; show (!r.isEmpty) = true; rw [hne]; rfl
+  rw [hn, if_pos rfl]
+  unfold Scanner.numberEnd
+  have hfin : s.parser.finish (scanCfg En.lang zeroThr).lang = .ok (text, val) := by
+    rw [hp]; exact hf
+  rw [hfin]
+  dsimp only
+  rw [small_zeroThr, Bool.and_false]
+  obtain ⟨t1, t2⟩ := tracker_numberEnd s.tracker s.parser.isOrdinal text val hh
+  refine ⟨_, rfl, rfl, t1, ?_⟩
+  show List.map (·.text) (s.tracker.numberEnd s.parser.isOrdinal text val false).queue = _
+  rw [t2, hq]
+  rfl
+
+/-- **whatever validates is found by the scanner** (English, threshold 0): a word list accepted by
+`text2digitsWords` yields exactly one occurrence, with the same text -/
+theorem scan_of_validate (ws : List Word) (t : Word) (h : text2digitsWords En.lang ws = .ok t) :
+    occTexts En.lang zeroThr ws = some [t] := by
+  unfold text2digitsWords at h
+  cases hx : execGroup En.lang.apply ws with
+  | error e => rw [hx] at h; exact absurd h (by simp)
+  | ok r =>
+    rw [hx] at h
+    dsimp only at h
+    cases hne : r.isEmpty with
+    | true => rw [hne, if_pos rfl] at h; exact absurd h (by simp)
+    | false =>
+      rw [hne, if_neg Bool.false_ne_true] at h
+      cases hf : En.lang.formatW r with
+      | error f => rw [hf] at h; exact absurd h (by simp)
+      | ok tv =>
+        obtain ⟨t', val⟩ := tv
+        rw [hf] at h
+        have : t' = t := by simpa using h
+        subst this
+        obtain ⟨s1, e1, hs1⟩ := lift_run zeroThr ws DS.new false r hx {} 0 ⟨rfl, rfl, rfl⟩
+        obtain ⟨sf, e2, _, _, hq⟩ := finalize_run s1 r t' val hs1 hne hf
+        unfold occTexts
+        rw [findNumbers_words, e1]
+        dsimp only
+        rw [e2]
+        dsimp only
+        rw [hq]
+
+/-- a word refused with `Overlap` while an integer-mode number is open: that number is emitted and the
+word starts the next one -/
+theorem step_reject_run (s : Scanner) (pos z' : Nat) (pend' : Option Nat) (r : DS) (text : Word) (val : Value)
+    (w : Word) (hw : skipW w = false ∧ En.lang.isDecSep w = false) (hs : SI s r) (hne : r.isEmpty = false)
+    (hf : En.lang.formatW r = .ok (text, val))
+    (ha : En.apply w r = (some .overlap, r))
+    (hb : En.apply w {} = (none, { rbuf := pendL pend', lz := z' })) :
+    ∃ s', s.push (scanCfg En.lang zeroThr) pos (wt w) = .ok s' ∧ St s' z' pend' [text] := by
+  obtain ⟨hp, hq, hh⟩ := hs
+  have hpush : s.parser.push En.lang w = (some .overlap, { int := r }) := by
+    rw [parser_push_nosep En.lang s.parser w (by rw [hp]) hw.2, hp]
+    have ha' : En.lang.apply w ({ int := r } : Parser).int = (some .overlap, r) := ha
+    rw [ha']
+  rw [push_word En.lang zeroThr s pos w hw.1, hpush]
+  dsimp only
+  unfold Scanner.pushRejected
+  have hn : ({ s with parser := { int := r } } : Scanner).parser.hasNumber = true := by
+    show (!r.isEmpty) = true; rw [hne]; rfl
+  rw [if_pos hn]
+  unfold Scanner.numberEnd
+  have hfin : ({ s with parser := { int := r } } : Scanner).parser.finish (scanCfg En.lang zeroThr).lang =
+      .ok (text, val) := hf
+  rw [hfin]
+  dsimp only
+  rw [small_zeroThr, Bool.and_false]
+  have hpush2 : Parser.push (scanCfg En.lang zeroThr).lang {} (wt w).lower = (none, pz z' pend') := by
+    show ({} : Parser).push En.lang w = _
+    rw [parser_push_nosep En.lang {} w rfl hw.2]
+    have hb' : En.lang.apply w ({} : Parser).int = (none, { rbuf := pendL pend', lz := z' }) := hb
+    rw [hb']; rfl
+  rw [hpush2]
+  obtain ⟨t1, t2⟩ := tracker_numberEnd s.tracker r.isOrdinal text val hh
+  refine ⟨_, rfl, rfl, t1, ?_⟩
+  show List.map (·.text) (s.tracker.numberEnd r.isOrdinal text val false).queue = _
+  rw [t2, hq]
+  rfl
+
+/-- **C16, `zero` after a number, at the scanner**: the number ends and the zero is a number of its own -/
+theorem C16_zero_after_scan_en (v : Spec.Var) (k n : Nat) (hn : 0 < n) (h : n < 10 ^ 12) :
+    occTexts En.lang zeroThr (List.replicate k Spec.En.zeroWord ++ Spec.En.cardinal v n ++ [Spec.En.zeroWord]) =
+      some [List.replicate k '0' ++ decChars n, ['0']] := by
+  have hn' : n ≠ 0 := by omega
+  have hrun : execGroupFrom En.apply (List.replicate k Spec.En.zeroWord ++ Spec.En.cardinal v n) DS.new false =
+      .ok (setLz k (C01En.mk (lsb n))) := by
+    show execGroupFrom En.apply _ (setLz 0 DS.new) false = _
+    rw [zeros_run, Nat.zero_add, cardinal_run_lz v k n hn' h]
+  have hz : En.apply Spec.En.zeroWord (setLz k (C01En.mk (lsb n))) = (some .overlap, setLz k (C01En.mk (lsb n))) := by
+    cases hl : lsb n with
+    | nil => exact absurd hl (lsb_ne_nil hn')
+    | cons a t => rfl
+  obtain ⟨hne, hf⟩ := format_lz k n hn'
+  obtain ⟨s1, e1, hs1⟩ := lift_run zeroThr _ DS.new false _ hrun {} 0 ⟨rfl, rfl, rfl⟩
+  obtain ⟨s2, e2, hs2⟩ := step_reject_run s1 (0 + 2 * (List.replicate k Spec.En.zeroWord ++ Spec.En.cardinal v n).length)
+    1 none _ _ _ Spec.En.zeroWord ⟨by decide, by decide⟩ hs1 hne hf hz rfl
+  obtain ⟨sf, e3, hq⟩ := finalize_pending s2 1 none _ hs2 (Or.inl (by decide))
+  unfold occTexts
+  rw [findNumbers_words, pushWords_append, e1]
+  dsimp only
+  rw [pushWords, e2]
+  dsimp only
+  rw [pushWords]
+  dsimp only
+  rw [e3]
+  dsimp only
+  rw [hq]
+  rfl
+
+theorem C01_scan_en (v : Spec.Var) (n : Nat) (h : n < 10 ^ 12) :
+    occTexts En.lang zeroThr (Spec.En.cardinal v n) = some [decChars n] :=
+  scan_of_validate _ _ (C01_validate_en v n h)
+
+theorem C16_scan_en (v : Spec.Var) (k n : Nat) (hn : 0 < n) (h : n < 10 ^ 12) :
+    occTexts En.lang zeroThr (List.replicate k Spec.En.zeroWord ++ Spec.En.cardinal v n) =
+      some [List.replicate k '0' ++ decChars n] :=
+  scan_of_validate _ _ (C16_validate_en' v k n hn h)
+
+theorem C04_scan_en (v : Spec.Var) (n : Nat) (hn : 0 < n) (h : n < 10 ^ 12) (plural : Bool)
+    (hp : plural = true → Spec.En.pluralOk n = true) :
+    occTexts En.lang zeroThr (Spec.En.ordinal v n plural) = some [decChars n ++ Spec.En.ordinalMarker n plural] :=
+  scan_of_validate _ _ (C04_validate_en' v n hn h plural hp)
+
 end T2N.EnExt
